@@ -32,6 +32,9 @@ type Result struct {
 	Notes              []string       `json:"notes"`
 	// Replay inputs per case id, so that a mismatch reported by Coq can be turned into a replay.
 	Inputs map[string]any `json:"inputs"`
+	// Number of cases handed to the Coq model when it differs from Evaluations (the oracle may
+	// look at more observations than are replayed in Coq). 0 = same as Evaluations.
+	ModelCases int `json:"model_cases,omitempty"`
 }
 
 type Ctx struct {
